@@ -57,6 +57,7 @@ type Program struct {
 	Main     []*N
 	UsesTr   bool
 	UsesDeep bool `json:",omitempty"`
+	UsesTh   bool `json:",omitempty"`
 	// number of catch clauses generated under a known-finding restriction
 	Restricted int `json:",omitempty"`
 	// number of do expressions generated without catch clauses under the catch-keeps-pending-operands restriction
